@@ -13,25 +13,46 @@ From YV Require Import TryLang TrySpec.
 Import ListNotations.
 
 (* the emitter/VM choices that changed during the repairs; the translator regenerates them from the sources *)
+(* what unwind_stack does with Vm.handling_exception when it hands the exception to a handler *)
+Inductive he_mode :=
+| HeAssign        (* handling_exception = handler.has_catch_block()   [sic: true iff there is NO catch clause]  (today) *)
+| HeAssignNeg     (* ... = !handler.has_catch_block() *)
+| HeClearOnCatch  (* only `if a catch clause takes it { handling_exception = false }`: the raise sites must set it *)
+| HeKeep.         (* untouched *)
 Record cfg := {
   catch_emits_pop : bool;          (* try_statement: the catch block starts with PopExcHandler   (today: false) *)
   break_pops_handlers : bool;      (* break/continue: one PopExcHandler per try block being left (today: true) *)
   return_uses_jump_finally : bool; (* return inside a try block: e; JumpFinally; Return          (today: true) *)
-  he_is_no_catch : bool            (* unwind_stack: handling_exception := (finally_ip == catch_ip) (today: true) *)
+  unwind_he : he_mode;             (* unwind_stack                                               (today: HeAssign) *)
+  throw_sets_he : bool;            (* throw_impl sets handling_exception before unwinding        (today: true) *)
+  vmfail_sets_he : bool;           (* try_handle_error (failures raised by the VM itself)        (today: false) *)
+  nativefail_sets_he : bool        (* Err arm of call_native (failures returned by natives)      (today: false) *)
 }.
-Definition cfg_today : cfg :=
-  {| catch_emits_pop := false; break_pops_handlers := true; return_uses_jump_finally := true; he_is_no_catch := true |}.
+(* today's emitters and unwind_stack; while unwind_stack DERIVES the flag, which raise sites set it first is
+   immaterial: the theorems are proved for every choice *)
+Definition cfg_assign (ts vs ns : bool) : cfg :=
+  {| catch_emits_pop := false; break_pops_handlers := true; return_uses_jump_finally := true; unwind_he := HeAssign;
+     throw_sets_he := ts; vmfail_sets_he := vs; nativefail_sets_he := ns |}.
+Definition cfg_today : cfg := cfg_assign true false false.
 Definition cfg_old_catch_pops : cfg :=
-  {| catch_emits_pop := true; break_pops_handlers := true; return_uses_jump_finally := true; he_is_no_catch := true |}.
+  {| catch_emits_pop := true; break_pops_handlers := true; return_uses_jump_finally := true; unwind_he := HeAssign;
+     throw_sets_he := true; vmfail_sets_he := false; nativefail_sets_he := false |}.
 Definition cfg_old_break : cfg :=
-  {| catch_emits_pop := false; break_pops_handlers := false; return_uses_jump_finally := true; he_is_no_catch := true |}.
+  {| catch_emits_pop := false; break_pops_handlers := false; return_uses_jump_finally := true; unwind_he := HeAssign;
+     throw_sets_he := true; vmfail_sets_he := false; nativefail_sets_he := false |}.
+(* a variant in which only SOME raise sites set the flag that unwind_stack no longer derives: the exception of the
+   other sites is dropped by EndFinally (the shape of a plausible refactoring; see native_site_needs_flag) *)
+Definition cfg_flag_at_sites_but_native : cfg :=
+  {| catch_emits_pop := false; break_pops_handlers := true; return_uses_jump_finally := true; unwind_he := HeClearOnCatch;
+     throw_sets_he := true; vmfail_sets_he := true; nativefail_sets_he := false |}.
 
 Definition FRAMES_MAX : nat := 64.
 
 Inductive instr :=
 | IPrint (t : nat)          (* GetGlobal print; Constant t; Call 1; Pop *)
 | IPrintLocal (slot : nat)  (* GetGlobal print; GetLocal slot; Call 1; Pop *)
-| IFail                     (* Nil; Call 0        -> TypeError instance thrown by try_handle_error *)
+| IFail                     (* Nil; Call 0        -> TypeError instance PUSHED and thrown by try_handle_error *)
+| INativeFail               (* Constant "12x"; Invoke to_num 0 -> ValueError instance POKED over the receiver by call_native *)
 | IConst (t : nat)          (* Constant *)
 | INil                      (* Nil *)
 | IPop                      (* Pop *)
@@ -63,7 +84,7 @@ Section Compile.
     | Skip => 0
     | Seq a b => size nloc tr intry lp a + size nloc tr intry lp b
     | Print _ | PrintExc => 1
-    | Throw _ | BuiltinFail => 2
+    | Throw _ | BuiltinFail | NativeFail => 2
     | Call _ => 4
     | Return _ => if intry && return_uses_jump_finally K then 3 else 2
     | Break | Continue =>
@@ -111,6 +132,7 @@ Section Compile.
     | PrintExc => [IPrintLocal (c_catch c)]
     | Throw t => [IConst t; IThrow]
     | BuiltinFail => [IFail; IPop]
+    | NativeFail => [INativeFail; IPop]
     | Call g => [IPushNative; ICall g; IPrintTop; IPop]
     | Return t =>
         IConst t :: (if c_intry c && return_uses_jump_finally K then [IJumpFinally] else []) ++ [IReturn]
@@ -204,8 +226,14 @@ Section Machine.
   Variable P : list (list instr).
 
   (* ExcHandler::has_catch_block (sic): finally_ip == catch_ip *)
-  Definition he_after (h : handler) : bool :=
-    if he_is_no_catch K then h_catch h =? h_fin h else negb (h_catch h =? h_fin h).
+  Definition he_after (h : handler) (he_in : bool) : bool :=
+    let nocatch := h_catch h =? h_fin h in
+    match unwind_he K with
+    | HeAssign => nocatch
+    | HeAssignNeg => negb nocatch
+    | HeClearOnCatch => if nocatch then he_in else false
+    | HeKeep => he_in
+    end.
 
   (* vm.rs unwind_stack *)
   Definition unwind (st : state) : config :=
@@ -216,7 +244,7 @@ Section Machine.
         match skipn (length (s_frames st) - h_frames h) (s_frames st) with
         | [] => inr (FStuck, s_out st)
         | frs => inl (mkS (h_fn h) (h_catch h) (firstn (h_height h) (s_stack st) ++ [exc]) frs hs
-                          (s_retpend st) (he_after h) (s_out st))
+                          (s_retpend st) (he_after h (s_he st)) (s_out st))
         end
     end.
 
@@ -245,7 +273,10 @@ Section Machine.
             | Some v => inl (mkS g (S pc) stk frs hs rp he (out ++ [v]))
             | None => stuck st
             end
-        | IFail => unwind (mkS g (S pc) (stk ++ [VNil; VErr]) frs hs rp he out)
+        | IFail => unwind (mkS g (S pc) (stk ++ [VNil; VErr]) frs hs rp (if vmfail_sets_he K then true else he) out)
+        | INativeFail =>
+            (* the receiver is pushed, the native returns Err: poke(0, error object); unwind_stack *)
+            unwind (mkS g (S pc) (stk ++ [VValErr]) frs hs rp (if nativefail_sets_he K then true else he) out)
         | IConst t => inl (mkS g (S pc) (stk ++ [VNum t]) frs hs rp he out)
         | INil => inl (mkS g (S pc) (stk ++ [VNil]) frs hs rp he out)
         | IPop =>
@@ -253,11 +284,12 @@ Section Machine.
             | Some (stk', _) => inl (mkS g (S pc) stk' frs hs rp he out)
             | None => stuck st
             end
-        | IThrow => unwind (mkS g (S pc) stk frs hs rp true out)
+        | IThrow => unwind (mkS g (S pc) stk frs hs rp (if throw_sets_he K then true else he) out)
         | IPushNative => inl (mkS g (S pc) (stk ++ [VNative]) frs hs rp he out)
         | ICall f =>
             if length P <=? f then stuck st
-            else if FRAMES_MAX <=? length frs then unwind (mkS g (S pc) (stk ++ [VFn f; VOvf]) frs hs rp he out)
+            else if FRAMES_MAX <=? length frs
+            then unwind (mkS g (S pc) (stk ++ [VFn f; VOvf]) frs hs rp (if vmfail_sets_he K then true else he) out)
             else inl (mkS f 0 (stk ++ [VFn f]) (mkF f (length stk) (g, S pc) :: frs) hs rp he out)
         | IPrintTop =>
             match unsnoc stk with
@@ -272,7 +304,7 @@ Section Machine.
             match nth_error stk (base + sl) with
             | Some (VNum i) => inl (mkS g (S pc) (stk ++ [VBool (i <? n)]) frs hs rp he out)
             | Some v => (* binary_op: TypeError "Binary operands must both be numbers." *)
-                unwind (mkS g (S pc) (stk ++ [v; VNum n; VErr]) frs hs rp he out)
+                unwind (mkS g (S pc) (stk ++ [v; VNum n; VErr]) frs hs rp (if vmfail_sets_he K then true else he) out)
             | None => stuck st
             end
         | IEq sl k =>
@@ -287,7 +319,7 @@ Section Machine.
             | Some (VNum i) =>
                 inl (mkS g (S pc) (firstn (base + sl) stk ++ VNum (S i) :: skipn (S (base + sl)) stk) frs hs rp he out)
             | Some v => (* Add: TypeError "Binary operands must be two numbers or two strings." *)
-                unwind (mkS g (S pc) (stk ++ [v; VNum 1; VErr]) frs hs rp he out)
+                unwind (mkS g (S pc) (stk ++ [v; VNum 1; VErr]) frs hs rp (if vmfail_sets_he K then true else he) out)
             | None => stuck st
             end
         | IJump t => inl (mkS g t stk frs hs rp he out)
